@@ -61,4 +61,10 @@ def firstBadE : List Edit → Doc → Nat → Option Nat
   | [], _, _ => none
   | e :: es, d, i => if e.okE d then firstBadE es (e.apply d) (i + 1) else some i
 
+/-- what the harness checks of an API history: every observed step `esᵢ` is accepted (up to empty texts)
+in the document the previous steps led to -/
+def okSteps : List (List Edit) → Doc → Bool
+  | [], _ => true
+  | s :: rest, d => okAllE s d && okSteps rest (applyAll s d)
+
 end Capella.Xml
